@@ -1,10 +1,10 @@
 package checks
 
 import (
+	"verif/harness/internal/c09"
+	"verif/harness/internal/c18"
 	"verif/harness/internal/c19"
 	"verif/harness/internal/c20"
-	"verif/harness/internal/c18"
-	"verif/harness/internal/c09"
 	"verif/harness/internal/run"
 )
 
